@@ -350,6 +350,7 @@ class SimPeer:
         per = self.cfg.get('per_call', {}).get(str(k))
         if per:
             cfg.update(per)
+            self.world.fire('answer_set_ranges')
         obj = build_answer(text, language, tag, cfg)
         fault = self.cfg.get('faults', {}).get(str(k))
         if fault:
@@ -460,6 +461,25 @@ class SimPeer:
         return _Reply(self.answer(text, language, norm))
 
 
+def build_textgears_answer(text, tag, cfg):
+    errs = []
+    ranges = cfg.get('set_ranges')
+    if ranges is not None:
+        for (o, l) in ranges:
+            errs.append({'offset': o, 'length': l, 'bad': text[o:o + l],
+                         'type': 'range [%s]' % tag, 'better': ['x']})
+    else:
+        for t in cfg.get('targets', []):
+            o = text.find(t)
+            if o < 0:
+                continue
+            for _ in range(2 if t in cfg.get('dup', []) else 1):
+                errs.append({'offset': o, 'length': len(t), 'bad': t,
+                             'type': 'found: "%s" [%s]' % (t, tag),
+                             'better': [t.upper(), 'naïve']})
+    return {'result': True, 'errors': errs, 'score': 50}
+
+
 def _textgears(self, url, fields):
     """TextGears transport: other answer shape ({'errors': [...]}), no
     language, no rule options."""
@@ -476,24 +496,22 @@ def _textgears(self, url, fields):
          language=None, text=text)
     k = self.invocations
     self.invocations += 1
-    errs = []
-    for t in self.cfg.get('targets', []):
-        o = text.find(t)
-        if o < 0:
-            continue
-        for _ in range(2 if t in self.cfg.get('dup', []) else 1):
-            errs.append({'offset': o, 'length': len(t), 'bad': t,
-                         'type': 'found: "%s" [%s]' % (t, tag),
-                         'better': [t.upper(), 'naïve']})
-    data = json.dumps({'result': True, 'errors': errs, 'score': 50},
-                      ensure_ascii=self.cfg.get('ensure_ascii', False)
+    cfg = dict(self.cfg)
+    per = self.cfg.get('per_call', {}).get(str(k))
+    if per:
+        cfg.update(per)
+        w.fire('answer_set_ranges')
+    obj = build_textgears_answer(text, tag, cfg)
+    errs = obj['errors']
+    data = json.dumps(obj, ensure_ascii=self.cfg.get('ensure_ascii', False)
                       ).encode('utf-8')
     fault = self.cfg.get('faults', {}).get(str(k))
     if fault:
         for f in (fault if isinstance(fault, list) else [fault]):
             w.fire('answer_' + f['kind'])
-        data = apply_answer_fault(json.loads(data.decode('utf-8')), fault,
-                                  self.cfg)
+        if k > 0:
+            w.fire('answer_fault_at_call_gt0')
+        data = apply_answer_fault(obj, fault, self.cfg)
     w.ev('answer', k=k, nbytes=len(data),
          sha=hashlib.sha1(data).hexdigest()[:12], nmatches=len(errs))
     return _Reply(data)
